@@ -71,16 +71,29 @@ static void expect_refused(const char *what, long r) {
     else if (r != -EPERM && r != -EINVAL && r != -EACCES && r != -EPIPE) v.fail("C14.1", std::string(what) + " from a foreign thread failed with unexpected code " + std::to_string(r));
 }
 
+static void do_calls(m_mod_t *bm);
+static sem_t task_done;
+// kind 3: the calls are issued by a thread of the library's own task pool (from inside a task function of module A): that thread does not own
+// A's context either
+static int calls_task_fn(void *p) { (void)p; do_calls(nullptr); sem_post(&task_done); return 0; }
+
 static void *thread_b(void *) {
     sem_wait(&to_b);
     m_mod_t *bm = nullptr;
-    if (g_case->bkind >= 1) {
+    if (g_case->bkind == 1 || g_case->bkind == 2) {
         if (m_ctx_register("ctxB", (m_ctx_flags)0, nullptr) != 0) v.fail("C14.H", "B could not register its own context");
         m_mod_hook_t hk = {nullptr, nullptr, b_evt, nullptr};
         // kind 2: B's own module carries the same name as A's module (names are per context; identity is what counts)
         if (m_mod_register(g_case->bkind == 2 ? "amod" : "bmod", &bm, &hk, (m_mod_flags)0, nullptr) != 0 || m_mod_start(bm) != 0) v.fail("C14.H", "B could not set up its own module");
         m_ctx_set_logger(quiet_logger);
     }
+    do_calls(bm);
+    if (bm) { m_mod_deregister(&bm); m_ctx_deregister(); }
+    sem_post(&to_a);
+    return nullptr;
+}
+
+static void do_calls(m_mod_t *bm) {
     static m_src_tmr_t tmr_new = {CLOCK_MONOTONIC, 7000000}, tmr_old = {CLOCK_MONOTONIC, 50000000};
     static m_src_sgn_t sgn_new = {SIGUSR2}, sgn_old = {SIGUSR1};
     static m_src_path_t path_new = {"/tmp", 2}, path_old = {"/", 2};
@@ -135,9 +148,6 @@ static void *thread_b(void *) {
         if (m_mod_name(am) == nullptr || strcmp(m_mod_name(am), "amod") != 0) v.fail("C14.4", "m_mod_name does not answer from a foreign thread");
         if (m_mod_userdata(am) != (void *)&a_events) v.fail("C14.4", "m_mod_userdata does not answer from a foreign thread");
     }
-    if (bm) { m_mod_deregister(&bm); m_ctx_deregister(); }
-    sem_post(&to_a);
-    return nullptr;
 }
 
 static ssize_t len_before[M_SRC_TYPE_END + 1]; static m_mod_stats_t st0; static int want_state;
@@ -181,6 +191,23 @@ static rt::Verdict run_case(const Case &c, const rt::Args &) {
     else { r = m_mod_start(am) | m_mod_stop(am) | setup_sources(); want_state = M_MOD_STOPPED; }
     if (r != 0) { v.fail("C14.H", "setting up module A failed (" + std::to_string(r) + ")"); return v; }
     const bool park = c.park && c.state == 1;
+    if (c.bkind == 3) {
+        // only a RUNNING module gets its task started; for the other states this kind degenerates to "no context" (kind 0)
+        if (c.state == 1 && !c.park) {
+            sem_init(&task_done, 0, 0);
+            static m_src_task_t tk = {77, calls_task_fn};
+            if (m_mod_src_register_task(am, &tk, (m_src_flags)0, nullptr) != 0) { v.fail("C14.H", "could not register the task source"); return v; }
+            snapshot();                 // (the task source itself is part of the snapshot)
+            sem_wait(&task_done);       // the pool thread performed its calls
+            compare_with_snapshot("after calls made from a task function (pool thread)");
+            // let the library consume the task's completion before anything else happens
+            m_ctx_dispatch(); for (int i = 0; i < 6; i++) { struct timespec ts = {0, 2000000}; nanosleep(&ts, nullptr); m_ctx_dispatch(); }
+            m_ctx_quit(0); m_ctx_dispatch();
+            v.classes.push_back("calls-from-task-pool-thread");
+            goto behaviour;
+        }
+    }
+    {
     pthread_t tb; pthread_create(&tb, nullptr, thread_b, nullptr);
     if (!park) {
         snapshot();
@@ -198,6 +225,8 @@ static rt::Verdict run_case(const Case &c, const rt::Args &) {
         if (v.ok && (int)m_mod_state(am) != want_state) v.fail("C14.2", "module state changed to " + std::to_string(m_mod_state(am)) + " by a foreign call");
     }
     pthread_join(tb, nullptr);
+    }
+behaviour:
     // behaviour check: bring A to RUNNING, publish once, run the loop: exactly the own message arrives, with the original handler
     if (v.ok) {
         if (want_state == M_MOD_PAUSED) m_mod_resume(am);
@@ -213,14 +242,14 @@ static rt::Verdict run_case(const Case &c, const rt::Args &) {
     m_mod_deregister(&am); m_mod_deregister(&am2); m_ctx_deregister();
     close(a_pipe[0]); close(a_pipe[1]);
     v.nontrivial = true;
-    v.classes.push_back("state=" + std::to_string(c.state)); if (c.park && c.state == 1) v.classes.push_back("owner-inside-own-callback"); v.classes.push_back(c.bkind == 2 ? "B-own-ctx-same-module-name" : c.bkind ? "B-own-ctx" : "B-no-ctx");
+    v.classes.push_back("state=" + std::to_string(c.state)); if (c.park && c.state == 1) v.classes.push_back("owner-inside-own-callback"); v.classes.push_back(c.bkind == 3 ? "B-task-pool-thread" : c.bkind == 2 ? "B-own-ctx-same-module-name" : c.bkind ? "B-own-ctx" : "B-no-ctx");
     for (int call : c.calls) v.classes.push_back(std::string("call:") + call_names[call]);
     return v;
 }
 
 static bool exhaustive(const rt::Args &args, rt::Stats &stats, rt::Failure &failure) {
     uint64_t idx = 0, total = 0;
-    for (int state = 0; state < 5; state++) for (int bkind = 0; bkind < 3; bkind++) for (int call = 0; call < K_NCALLS; call++) {
+    for (int state = 0; state < 5; state++) for (int bkind = 0; bkind < 4; bkind++) for (int call = 0; call < K_NCALLS; call++) {
         if ((idx++ % args.nshards) != (uint64_t)args.shard) continue;
         Case c; c.state = state == 4 ? 1 : state; c.park = state == 4; c.bkind = bkind; c.calls = {call};
         rt::Verdict vv = rt::run_forked(args.prop, [&] { return run_case(c, args); });
@@ -228,14 +257,14 @@ static bool exhaustive(const rt::Args &args, rt::Stats &stats, rt::Failure &fail
         if (!vv.ok) { failure.present = true; failure.rule = vv.rule; failure.message = vv.message; failure.text = to_text(c); return false; }
     }
     stats.exhaustive = true;
-    stats.exhaustive_note = "every (module state [idle, running, paused, stopped, running with the owner thread inside the module's own handler] x foreign thread kind x public module call) combination: 5 x 3 x " + std::to_string((int)K_NCALLS);
+    stats.exhaustive_note = "every (module state [idle, running, paused, stopped, running with the owner thread inside the module's own handler] x foreign thread kind x public module call) combination: 5 x 4 (no context, own context, own context with a same-named module, a thread of the task pool running a task of the module) x " + std::to_string((int)K_NCALLS);
     stats.counters["matrix_cells"] = total;
     return true;
 }
 
 static rc::Gen<Case> gen_case(const rt::Args &) {
     using namespace rc;
-    return gen::map(gen::tuple(gens::range(0, 5), gens::range(0, 3), gens::vec<int>(1, 8, gens::range<int>(0, (int)K_NCALLS))), [](std::tuple<int, int, std::vector<int>> t) {
+    return gen::map(gen::tuple(gens::range(0, 5), gens::range(0, 4), gens::vec<int>(1, 8, gens::range<int>(0, (int)K_NCALLS))), [](std::tuple<int, int, std::vector<int>> t) {
         Case c; c.state = std::get<0>(t) == 4 ? 1 : std::get<0>(t); c.park = std::get<0>(t) == 4; c.bkind = std::get<1>(t); c.calls = std::get<2>(t); return c; });
 }
 
